@@ -48,9 +48,9 @@ Qed.
 Lemma step_buf s l : r_buf (step s l) = r_buf s.
 Proof.
   unfold step. destruct (enabled s l); [|reflexivity].
-  destruct l as [c o|c|c c' ord|c|c]; cbn [step_enabled].
-  - destruct (c_pc (r_cs s c)); [destruct (c_dead (r_cs s c))|]; reflexivity.
-  - unfold run_instr. destruct (c_pc (r_cs s c)) as [|i rest]; [reflexivity|].
+  destruct l as [c o|c|c c' ord|c|c|c]; cbn [step_enabled].
+  - destruct (c_pc (r_cs s c)); [destruct (c_dead (r_cs s c) || _)|destruct (is_disc o && _ && _)]; reflexivity.
+  - unfold run_instr. destruct (c_pc (r_cs s c)) as [|i rest]; [destruct (mem_conn c (r_cancel s)); reflexivity|].
     destruct i; try reflexivity.
     + destruct (reg_get c (r_reg s)); reflexivity.
     + destruct (reg_get c (r_reg s)); reflexivity.
@@ -61,6 +61,7 @@ Proof.
   - destruct (c_dead (r_cs s c)); [reflexivity|]. destruct (c_hand (r_cs s c)); [reflexivity|].
     destruct (c_q (r_cs s c)); reflexivity.
   - destruct (c_dead (r_cs s c)); [reflexivity|]. destruct (c_hand (r_cs s c)); reflexivity.
+  - destruct (c_pc (r_cs s c)) as [|i rest]; [reflexivity|]. destruct (mem_conn c (r_cancel s) && _); reflexivity.
 Qed.
 
 Lemma run_buf s tr : r_buf (run s tr) = r_buf s.
@@ -77,12 +78,12 @@ Proof. induction 1; [reflexivity|]. now rewrite step_buf. Qed.
 Lemma step_ctl_other s l x : label_of_conn x l = false -> ctl (r_cs (step s l) x) = ctl (r_cs s x).
 Proof.
   intro Hl. unfold step. destruct (enabled s l); [|reflexivity].
-  destruct l as [c o|c|c c' ord|c|c]; cbn [step_enabled]; cbn [label_of_conn] in Hl.
+  destruct l as [c o|c|c c' ord|c|c|c]; cbn [step_enabled]; cbn [label_of_conn] in Hl.
   - apply Nat.eqb_neq in Hl.
-    destruct (c_pc (r_cs s c)); [destruct (c_dead (r_cs s c))|]; try reflexivity.
+    destruct (c_pc (r_cs s c)); [destruct (c_dead (r_cs s c) || _)|destruct (is_disc o && _ && _)]; try reflexivity.
     cbn. now rewrite upd_other.
   - apply Nat.eqb_neq in Hl. unfold run_instr.
-    destruct (c_pc (r_cs s c)) as [|i rest]; [reflexivity|].
+    destruct (c_pc (r_cs s c)) as [|i rest]; [destruct (mem_conn c (r_cancel s)); [cbn; now rewrite upd_other | reflexivity]|].
     destruct i; cbn; try (now rewrite upd_other).
     + destruct (reg_get c (r_reg s)); cbn; now rewrite upd_other.
     + destruct (reg_get c (r_reg s)); cbn; now rewrite upd_other.
@@ -109,6 +110,9 @@ Proof.
     match goal with |- ctl (upd ?f ?k ?v x) = _ => destruct (upd_cases f k v x) as [[-> ->]|[_ ->]] end; unfold ctl; cbn; rewrite ?Hd; reflexivity.
   - destruct (c_dead (r_cs s c)) eqn:Hd; [reflexivity|]. destruct (c_hand (r_cs s c)) eqn:Hh; [|reflexivity]. cbn.
     match goal with |- ctl (upd ?f ?k ?v x) = _ => destruct (upd_cases f k v x) as [[-> ->]|[_ ->]] end; unfold ctl; cbn; rewrite ?Hd; reflexivity.
+  - apply Nat.eqb_neq in Hl.
+    destruct (c_pc (r_cs s c)) as [|i rest]; [reflexivity|]. destruct (mem_conn c (r_cancel s) && _); [|reflexivity].
+    cbn. now rewrite upd_other.
 Qed.
 
 Lemma step_pc_other s l x : label_of_conn x l = false -> c_pc (r_cs (step s l) x) = c_pc (r_cs s x).
@@ -124,10 +128,10 @@ Proof. intro H. pose proof (step_ctl_other s l x H) as E. unfold ctl in E. now i
 Lemma step_reg_other s l x : l <> LRun x -> reg_get x (r_reg (step s l)) = reg_get x (r_reg s).
 Proof.
   intro Hl. unfold step. destruct (enabled s l); [|reflexivity].
-  destruct l as [c o|c|c c' ord|c|c]; cbn [step_enabled].
-  - destruct (c_pc (r_cs s c)); [destruct (c_dead (r_cs s c))|]; reflexivity.
+  destruct l as [c o|c|c c' ord|c|c|c]; cbn [step_enabled].
+  - destruct (c_pc (r_cs s c)); [destruct (c_dead (r_cs s c) || _)|destruct (is_disc o && _ && _)]; reflexivity.
   - assert (N : x <> c) by (intro; subst; now apply Hl).
-    unfold run_instr. destruct (c_pc (r_cs s c)) as [|i rest]; [reflexivity|].
+    unfold run_instr. destruct (c_pc (r_cs s c)) as [|i rest]; [destruct (mem_conn c (r_cancel s)); reflexivity|].
     destruct i; cbn; try reflexivity.
     + now apply reg_get_set_other.
     + destruct (reg_get c (r_reg s)); cbn; [now apply reg_get_set_other | reflexivity].
@@ -140,6 +144,7 @@ Proof.
   - destruct (c_dead (r_cs s c)); [reflexivity|]. destruct (c_hand (r_cs s c)); [reflexivity|].
     destruct (c_q (r_cs s c)); reflexivity.
   - destruct (c_dead (r_cs s c)); [reflexivity|]. destruct (c_hand (r_cs s c)); reflexivity.
+  - destruct (c_pc (r_cs s c)) as [|i rest]; [reflexivity|]. destruct (mem_conn c (r_cancel s) && _); reflexivity.
 Qed.
 
 (** a second update that keeps the control part *)
